@@ -175,12 +175,14 @@ def write_replay_record(prop, cond, fn, args, kwargs, rep, message):
     return path
 
 
-def check(prop: str, tier: str) -> int:
+def check(prop: str, tier: str, only: str = "") -> int:
     t0 = time.time()
     seed = int(os.environ.get("VERIF_SEED", "0") or 0)
     mod = importlib.import_module(f"vlib.props.{prop.lower()}")
     items = mod.conditions(tier)
     items = [c for c in items if tier == "thorough" or c.tier == "quick"]
+    if only:
+        items = [c for c in items if re.search(only, c.name)]
     names = [c.name for c in items]
     assert len(names) == len(set(names)), "duplicate condition names"
     known = [k for k in load_known() if k["property"] == prop]
@@ -420,7 +422,7 @@ def check(prop: str, tier: str) -> int:
             "violations": len(violations),
         }
         os.makedirs(EVID, exist_ok=True)
-        with open(os.path.join(EVID, f"{prop}.json"), "w") as fh:
+        with open(os.path.join(EVID, f"{prop}.json" if not only else f"_partial_{prop}.json"), "w") as fh:
             json.dump(ev, fh, indent=1, default=str)
         log(
             f"{prop} [{tier}] obligations={n_obl} discharged={n_dis} inconclusive={n_inc} "
@@ -454,8 +456,9 @@ def main(argv):
         tier = os.environ.get("VERIF_TIER", "quick")
         if "--tier" in argv:
             tier = argv[argv.index("--tier") + 1]
+        only = argv[argv.index("--only") + 1] if "--only" in argv else ""
         try:
-            return check(prop, tier)
+            return check(prop, tier, only)
         except Exception:  # noqa: BLE001
             import traceback
 
